@@ -266,9 +266,10 @@ def check(run, prog, tier):
                 continue
             nfw += 1
             run.saw(f)
-            inside = f.name == "set_heart_beat"
+            import helpers
+            inside = f.name == "set_heart_beat" or bool(helpers.owners(prog, f.name, {"set_heart_beat"}))
             ok = inside
-            why = "%s in set_heart_beat()" % show(n)[:50]
+            why = "%s in set_heart_beat()%s" % (show(n)[:50], "" if f.name == "set_heart_beat" else " (its file-local half %s())" % f.name)
             if inside:
                 # next to the table update: the append store (heart_beats[..] / ->ob =) or the removal (num_hb_objs--) dominates or is in the same block
                 upd = [(b2.id, i2) for b2, i2, n2 in f.nodes() if (n2.get("k") == "Un" and n2.get("op") in ("--", "++") and strip(n2["e"]).get("n") == "num_hb_objs")]
